@@ -15,6 +15,11 @@ pub use crate::api::types::{
 };
 pub use crate::api::INDEXER_METHODS;
 pub use crate::db::{BlockCachedDatabase, BlockDatabase, BlockHistoryCache, BlockHistoryCacheData};
+pub use crate::brc20_controller::BRC20_CONTROLLER_ADDRESS;
+pub use crate::engine::{
+    get_evm_spec, get_gas_limit, get_inscription_byte_len, use_rlp_hash_for_tx_hash,
+    verif_fork_heights,
+};
 pub use crate::db::types::*;
 pub use crate::db::Brc20ProgDatabase;
 pub use crate::engine::{get_evm_address_from_pkscript, BRC20ProgEngine, TxInfo};
@@ -234,3 +239,109 @@ pub fn lock_request(id: usize, ty: &'static str, write: bool, file: &'static str
         .wait_while(pause, |p| !p.released)
         .unwrap_or_else(|e| e.into_inner());
 }
+
+// ---------------------------------------------------------------------------------------
+// EVM recorder: what the engine hands to revm at its three call sites, and what came back
+// ---------------------------------------------------------------------------------------
+
+static ENV_ENABLED: AtomicBool = AtomicBool::new(false);
+
+/// Start (or stop) recording `evm_env` / `evm_result` notes (independent of `set_recording`).
+pub fn set_env_recording(on: bool) {
+    ENV_ENABLED.store(on, Ordering::SeqCst);
+}
+
+fn push_note(s: String) {
+    LOG.lock().unwrap_or_else(|e| e.into_inner()).push(Ev::Note(s));
+}
+
+/// Called after `modify_tx`, before the transaction runs. `site` is the name of the engine
+/// function (`add_tx_to_block`, `read_contract`, `read_contract_multi`).
+pub fn record_env(
+    site: &str,
+    block: &revm::context::BlockEnv,
+    cfg: &revm::context::CfgEnv,
+    tx: &revm::context::TxEnv,
+    op_return_tx_id: alloy::primitives::B256,
+    txid_precompile_registered: bool,
+) {
+    if !ENV_ENABLED.load(Ordering::Relaxed) {
+        return;
+    }
+    let kind = match tx.kind {
+        revm::primitives::TxKind::Create => "create".to_string(),
+        revm::primitives::TxKind::Call(a) => hex::encode(a.0),
+    };
+    let v = serde_json::json!({
+        "site": site,
+        "block": {
+            "number": block.number.to_string(),
+            "timestamp": block.timestamp.to_string(),
+            "prevrandao": block.prevrandao.map(|h| hex::encode(h.0)),
+            "basefee": block.basefee,
+            "difficulty": block.difficulty.to_string(),
+            "gas_limit": block.gas_limit,
+            "beneficiary": hex::encode(block.beneficiary.0),
+            "blob_excess_gas": block.blob_excess_gas_and_price.as_ref().map(|b| b.excess_blob_gas),
+            "blob_gasprice": block.blob_excess_gas_and_price.as_ref().map(|b| b.blob_gasprice.to_string()),
+        },
+        "cfg": {
+            "chain_id": cfg.chain_id,
+            "spec": format!("{:?}", cfg.spec),
+            "spec_id": cfg.spec as u8,
+            "limit_contract_code_size": cfg.limit_contract_code_size.map(|x| x as u64),
+            "disable_nonce_check": cfg.disable_nonce_check,
+            "tx_chain_id_check": cfg.tx_chain_id_check,
+        },
+        "tx": {
+            "tx_type": tx.tx_type,
+            "caller": hex::encode(tx.caller.0),
+            "kind": kind,
+            "nonce": tx.nonce,
+            "gas_limit": tx.gas_limit,
+            "gas_price": tx.gas_price.to_string(),
+            "value": tx.value.to_string(),
+            "chain_id": tx.chain_id,
+            "data_len": tx.data.len(),
+            "data_keccak": hex::encode(alloy::primitives::keccak256(&tx.data).0),
+        },
+        "op_return_tx_id": hex::encode(op_return_tx_id.0),
+        "txid_precompile_registered": txid_precompile_registered,
+        "prague_or_later": cfg.spec >= revm::primitives::hardfork::SpecId::PRAGUE,
+    });
+    push_note(format!("evm_env {}", v));
+}
+
+/// Called right after the run with what revm answered.
+pub fn record_result<E: std::fmt::Debug>(
+    site: &str,
+    r: &Result<revm::context::result::ExecutionResult, E>,
+) {
+    use revm::context::result::{ExecutionResult, Output};
+    if !ENV_ENABLED.load(Ordering::Relaxed) {
+        return;
+    }
+    let kec = |b: &[u8]| hex::encode(alloy::primitives::keccak256(b).0);
+    let v = match r {
+        Ok(ExecutionResult::Success { reason, gas_used, gas_refunded, logs, output }) => {
+            let (bytes, created) = match output {
+                Output::Call(b) => (b, None),
+                Output::Create(b, a) => (b, a.map(|a| hex::encode(a.0))),
+            };
+            serde_json::json!({"site": site, "class": "success", "reason": format!("{:?}", reason),
+                "gas_used": gas_used, "gas_refunded": gas_refunded, "logs": logs.len(),
+                "output_len": bytes.len(), "output_keccak": kec(bytes), "output": hex::encode(bytes),
+                "is_create": matches!(output, Output::Create(_, _)), "created": created})
+        }
+        Ok(ExecutionResult::Revert { gas_used, output }) => {
+            serde_json::json!({"site": site, "class": "revert", "gas_used": gas_used,
+                "output_len": output.len(), "output_keccak": kec(output), "output": hex::encode(output)})
+        }
+        Ok(ExecutionResult::Halt { reason, gas_used }) => {
+            serde_json::json!({"site": site, "class": "halt", "reason": format!("{:?}", reason), "gas_used": gas_used})
+        }
+        Err(e) => serde_json::json!({"site": site, "class": "error", "reason": format!("{:?}", e), "gas_used": 0}),
+    };
+    push_note(format!("evm_result {}", v));
+}
+
